@@ -604,6 +604,10 @@ impl CertificateParams {
 		{
 			return Err(Error::UnsupportedInCsr);
 		}
+		self.validate_names_and_extensions()?;
+		for attr in &attrs {
+			oid::ensure_encodable(attr.oid)?;
+		}
 
 		// Whether or not to write an extension request attribute
 		let write_extension_request = !key_usages.is_empty()
@@ -853,6 +857,27 @@ impl CertificateParams {
 	/// Checks the values that the type system lets through but that can't be encoded, so that
 	/// serialization returns an error instead of panicking on them.
 	fn validate(&self) -> Result<(), Error> {
+		self.validate_names_and_extensions()?;
+		ensure_encodable_time(self.not_before)?;
+		ensure_encodable_time(self.not_after)?;
+		Ok(())
+	}
+
+	/// The part of [`Self::validate`] that also applies to certificate signing requests
+	fn validate_names_and_extensions(&self) -> Result<(), Error> {
+		// Object identifiers given as free-form component lists
+		self.distinguished_name.validate()?;
+		for san in &self.subject_alt_names {
+			if let SanType::OtherName((oid, _)) = san {
+				oid::ensure_encodable(oid)?;
+			}
+		}
+		for usage in &self.extended_key_usages {
+			oid::ensure_encodable(usage.oid())?;
+		}
+		for ext in &self.custom_extensions {
+			oid::ensure_encodable(&ext.oid)?;
+		}
 		// Fields typed as a plain `String` that are encoded as an `IA5String`
 		let subtrees = self.name_constraints.iter().flat_map(|constraints| {
 			constraints
@@ -865,14 +890,13 @@ impl CertificateParams {
 				GeneralSubtree::Rfc822Name(name) | GeneralSubtree::DnsName(name) => {
 					ensure_ia5(name)?
 				},
-				GeneralSubtree::DirectoryName(_) | GeneralSubtree::IpAddress(_) => {},
+				GeneralSubtree::DirectoryName(name) => name.validate()?,
+				GeneralSubtree::IpAddress(_) => {},
 			}
 		}
 		for distribution_point in &self.crl_distribution_points {
 			distribution_point.validate()?;
 		}
-		ensure_encodable_time(self.not_before)?;
-		ensure_encodable_time(self.not_after)?;
 		Ok(())
 	}
 
